@@ -25,8 +25,13 @@ INFO = {
     'functions': ['FlowCal.mef.get_transform_fxn', 'FlowCal.mef.selection_std',
                   'FlowCal.stats.median/mean/std', 'FlowCal.transform.to_mef (via the returned '
                   'partial)'],
-    'bounds': {'quick': {'populations': 3, 'events': 6, 'channels': '1-2 calibrated'},
-               'thorough': {}},
+    'bounds': {'quick': {'populations': 3, 'events': 6, 'channels': '1-2 calibrated',
+                         'configurations': '3 (event order, label names, statistic) for 1 channel '
+                                           'x all 5 unknown-value patterns x default/explicit '
+                                           'thresholds; 3 for 2 channels (one unknown-value '
+                                           'pattern each); every brightness order'},
+               'thorough': {'configurations': 'all 4 event orders x 7 label namings x 2 statistics '
+                                              'x 5 unknown-value patterns, 1 and 2 channels'}},
     'outside': ['populations within 0.05 of a selection threshold', 'clustering quality (GMM)', 'the 10% conversion accuracy', 'reproducibility for a '
                 'fixed random seed', 'log/logicle selection scales (linear executed)'],
     'stubs': ['clustering_fxn: any relabelling of the ground-truth partition',
@@ -57,6 +62,12 @@ def body_workflow(B, I):
             raise Reject()
         if not (low < high):
             raise Reject()
+        if I.get('minb') is not None:
+            # job split: this job covers the brightness orders in which population `minb` is
+            # the dimmest (the jobs for minb = 0, 1, 2 together cover every order)
+            for k in range(K):
+                if k != I['minb'] and not (b[I['minb']] < b[k]):
+                    raise Reject()
         # keep populations a margin away from the selection thresholds, so that a
         # counterexample replays identically in floating point
         for k in range(K):
@@ -172,7 +183,7 @@ class _Ord(object):
         return bool(self.v < o.v)
 
 
-def make_workflow(two, usemean, pi, li, ui=None):
+def make_workflow(two, usemean, pi, li, ui=None, ud=None, uis=None, minb=None):
     def make(env):
         env.shadow('transform', float=real_float)
         from .c12 import install_scipy
@@ -181,7 +192,14 @@ def make_workflow(two, usemean, pi, li, ui=None):
         if ui is not None:
             return cond_fn('bead_workflow', [], body_workflow,
                            consts={'two': two, 'usemean': usemean, 'pi': pi, 'li': li, 'ui': ui,
-                                   'use_default': False})
+                                   'use_default': False, 'minb': minb})
+        if ud is not None:
+            # same claim split into jobs: default/explicit thresholds x subsets of the
+            # unknown-value patterns
+            return cond_fn('bead_workflow', [('ui', 'int')], body_workflow,
+                           pre=['ui in %r' % (tuple(uis),)],
+                           consts={'two': two, 'usemean': usemean, 'pi': pi, 'li': li,
+                                   'use_default': ud})
         return cond_fn('bead_workflow', [('ui', 'int'), ('use_default', 'bool')], body_workflow,
                        pre=['0 <= ui <= 4'],
                        consts={'two': two, 'usemean': usemean, 'pi': pi, 'li': li})
@@ -192,15 +210,27 @@ def conditions(tier):
     q = tier == 'quick'
     mods = ('plot', 'io', 'transform', 'stats', 'gate', 'mef')
     if q:
-        cfgs = [(False, False, 1, 3, None), (False, False, 3, 6, None), (False, True, 2, 1, None),
-                (True, False, 1, 4, 0), (True, False, 3, 2, 2), (True, False, 2, 5, 4)]
+        cfgs = [(False, um, pi, li, None, ud, uis)
+                for (um, pi, li) in ((False, 1, 3), (False, 3, 6), (True, 2, 1))
+                for ud in (False, True) for uis in ((0, 1, 2), (3, 4))]
+        cfgs += [(True, False, pi, li, ui, None, mb)
+                 for (pi, li, ui) in ((1, 4, 0), (3, 2, 2), (2, 5, 4)) for mb in (0, 1, 2)]
     else:
-        cfgs = [(two, um, pi, li, None if not two else ui) for two in (False, True)
-                for um in (False, True) for pi in range(len(PERMS)) for li in range(len(LABELS))
-                for ui in ((None,) if not two else range(5))]
-    return [Cond('workflow_%s_%s_p%d_l%d%s' % ('2ch' if two else '1ch', 'mean' if um else 'median',
-                                               pi, li, '' if ui is None else '_u%d' % ui),
-                 make=make_workflow(two, um, pi, li, ui), replay=std_replay(body_workflow),
+        cfgs = [(False, um, pi, li, None, ud, uis) for um in (False, True)
+                for pi in range(len(PERMS)) for li in range(len(LABELS))
+                for ud in (False, True) for uis in ((0, 1, 2), (3, 4))]
+        cfgs += [(True, um, pi, li, ui, None, mb) for um in (False, True)
+                 for pi in range(len(PERMS)) for li in range(len(LABELS)) for ui in range(5)
+                 for mb in (0, 1, 2)]
+    return [Cond('workflow_%s_%s_p%d_l%d%s%s' % ('2ch' if two else '1ch',
+                                                 'mean' if um else 'median', pi, li,
+                                                 '' if ui is None else '_u%d' % ui,
+                                                 ('_dim%d' % uis) if two else '_%s_u%s' % (
+                                                     'dflt' if ud else 'expl',
+                                                     ''.join(map(str, uis)))),
+                 make=make_workflow(two, um, pi, li, ui, ud, None if two else uis,
+                                    uis if two else None),
+                 replay=std_replay(body_workflow),
                  timeout=900, modules=mods,
                  doc='3 populations with symbolic brightness order, event order %s, label names '
                      '%s, symbolic unknown values and selection thresholds, %d channel(s), '
@@ -208,4 +238,4 @@ def conditions(tier):
                      'populations excluded, fit receives the true statistics, consistent '
                      'intermediate results, transformation = to_mef bound to curves and channels'
                      % (PERMS[pi], LABELS[li], 2 if two else 1, 'mean' if um else 'median'))
-            for (two, um, pi, li, ui) in cfgs]
+            for (two, um, pi, li, ui, ud, uis) in cfgs]
